@@ -78,6 +78,23 @@ def _substitute(t, mapping: dict):
     return tuple(_substitute(x, mapping) for x in t)
 
 
+def _fold_returns(returns: list, depth: int, falls_through: bool):
+    """The value of a function as ONE term: `if c: return A` ... `return B` is `A if c else B` (guards relative to the function body)."""
+    result = ("const", None) if falls_through or not returns else None
+    for value, rctx in reversed(returns):
+        guards = [fr for fr in rctx[depth:] if fr[0] == "if"]
+        if any(fr[0] in ("for", "while", "comp", "try", "with") for fr in rctx[depth:]):
+            return ("unknown", "return inside a loop of an inlined helper")
+        if result is None:
+            result = value
+            continue
+        t = value
+        for fr in reversed(guards):
+            t = ("ifexp", fr[1], t, result) if fr[2] else ("ifexp", fr[1], result, t)
+        result = t if guards else value
+    return result if result is not None else ("const", None)
+
+
 def _fuse(c):
     """(B(x) for x in (E(y) for y in Z if p) if q(x))  ->  (B(E(y)) for y in Z if p if q(E(y))): a single-generator comprehension over a
     single-generator generator expression is one comprehension over the inner iterable (map over filter, starmap over filter, ...)."""
@@ -146,6 +163,8 @@ class FunctionTerms:
         self._uid = 0
         self._seq = 0
         self._last_test: dict[int, Term] = {}
+        self._inline_stack: list[dict] = []
+        self._cls_stack: list = [(ref.module, ref.cls) if ref.cls is not None else None]
         self._stmt: ast.stmt | None = None
         env: dict[str, Term] = {}
         for p in ref.params():
@@ -232,6 +251,79 @@ class FunctionTerms:
             return ("comp", "list") + tuple(args[0][2:])
         return None
 
+    def _inline_call(self, f, args, kws, env, ctx):
+        """Helpers that no rule knows by name are read THROUGH: their body is evaluated in place (events and all), with the parameters
+        bound to the argument terms, and the call's value is the folded value of their returns.  `extract helper` / `inline helper`
+        refactorings therefore leave the events and terms of the caller unchanged.  Functions that rules name (anchors) stay opaque."""
+        if len(self._inline_stack) >= 2 or any(a[0] == "star" for a in args) or any(k is None for k, _ in kws):
+            return None
+        callee = None
+        recv = None
+        if f[0] == "global" and f[1].startswith(self.prog.PKG + "."):
+            callee = self.prog.find_func(f[1])
+            if callee is not None and callee.cls is not None:
+                callee = None
+        elif f[0] == "attr" and f[1] == ("param", "self") and self._cls_stack[-1] is not None:
+            mod, cls = self._cls_stack[-1]
+            for n in cls.body:
+                if isinstance(n, ast.FunctionDef) and n.name == f[2] and not n.decorator_list:
+                    from .core import FuncRef as _FR
+                    callee = _FR(mod, n, cls)
+                    recv = f[1]
+        if callee is None or "/tests/" in callee.module.rel() or not self.prog.inlinable(callee):
+            return None
+        if any(fr["qual"] == callee.qual for fr in self._inline_stack) or callee.qual == self.ref.qual:
+            return None
+        a = callee.node.args
+        if a.vararg or a.kwarg or a.posonlyargs:
+            return None
+        names = [x.arg for x in a.args]
+        if recv is not None:
+            names = names[1:]
+        if len(args) > len(names):
+            return None
+        bound: dict[str, Term] = dict(zip(names, args))
+        for k, v in kws:
+            if k in bound or (k not in names and k not in [x.arg for x in a.kwonlyargs]):
+                return None
+            bound[k] = v
+        # defaults are evaluated in the callee's module
+        saved = (self.module, self.locals)
+        self.module, self.locals = callee.module, bound_names(callee.node)
+        self._cls_stack.append((callee.module, callee.cls) if callee.cls is not None else None)
+        try:
+            pos_defaults = dict(zip([x.arg for x in a.args][len(a.args) - len(a.defaults):], a.defaults))
+            kw_defaults = {x.arg: d for x, d in zip(a.kwonlyargs, a.kw_defaults) if d is not None}
+            for nme in names + [x.arg for x in a.kwonlyargs]:
+                if nme not in bound:
+                    d = pos_defaults.get(nme, kw_defaults.get(nme))
+                    if d is None:
+                        return None
+                    bound[nme] = self.ev(d, {}, ctx)
+            env2 = dict(bound)
+            if recv is not None:
+                env2[a.args[0].arg] = recv
+            # attribute aliases of the caller (self.x = ...) stay visible through dotted names
+            for k, v in env.items():
+                if "." in k and k.split(".")[0] == "self" and recv is not None:
+                    env2.setdefault(k, v)
+            frame = {"qual": callee.qual, "returns": []}
+            self._inline_stack.append(frame)
+            base_ctx = ctx + (("inline", self.uid(), callee.qual),)
+            try:
+                self._block(callee.node.body, env2, base_ctx)
+            finally:
+                self._inline_stack.pop()
+            # write the callee's view of self.<attr> aliases back (stores inside the helper are stores of the caller)
+            if recv is not None:
+                for k, v in env2.items():
+                    if "." in k and k.split(".")[0] == "self":
+                        env[k] = v
+        finally:
+            self.module, self.locals = saved
+            self._cls_stack.pop()
+        return _fold_returns(frame["returns"], len(base_ctx), falls_through=not _terminates(callee.node.body))
+
     def _assigned_in(self, body: list[ast.stmt]) -> set[str]:
         out: set[str] = set()
         for s in body:
@@ -308,7 +400,10 @@ class FunctionTerms:
             self.emit("expr", s, ctx, value=v)
         elif isinstance(s, ast.Return):
             v = self.ev(s.value, env, ctx) if s.value is not None else ("const", None)
-            self.emit("return", s, ctx, value=v, value_node=s.value)
+            if self._inline_stack:
+                self._inline_stack[-1]["returns"].append((v, ctx))         # a return of an inlined helper is a value of the call, not of this function
+            else:
+                self.emit("return", s, ctx, value=v, value_node=s.value)
         elif isinstance(s, ast.If):
             t, pos = polarity(self.ev(s.test, env, ctx))
             self._last_test[id(s)] = (t, pos)
@@ -497,6 +592,9 @@ class FunctionTerms:
             canon = self._canonical_iteration(f, args, kws)
             if canon is not None:
                 return _fuse(canon)
+            inl = self._inline_call(f, args, kws, env, ctx)
+            if inl is not None:
+                return inl
             # x.sum() / x.max(axis=1) / x.argmin() ... are recorded as the NumPy function form np.sum(x) / np.max(x, axis=1) / np.argmin(x)
             if f[0] == "attr" and f[2] in NUMPY_REDUCTIONS and f[1][0] != "global":
                 return ("call", ("global", "numpy." + f[2]), (f[1],) + tuple(args), tuple(kws))
